@@ -605,6 +605,10 @@ func registerType(tov reflect.Type) error {
 			n := int(binary.BigEndian.Uint32(packet[:4]))
 			packet = packet[4:]
 
+			if n > len(packet) {
+				return nil, nil, fmt.Errorf("incorrect data length")
+			}
+
 			x := reflect.MakeMapWithSize(tov, n)
 			if value == nil {
 				value = &x
@@ -614,10 +618,6 @@ func registerType(tov reflect.Type) error {
 
 			if n == 0 {
 				return value, packet, nil
-			}
-
-			if n > len(packet) {
-				return nil, nil, fmt.Errorf("incorrect data length")
 			}
 
 			if state.child == nil {
